@@ -19,13 +19,15 @@ func init() {
 }
 
 type downCtx struct {
-	y           *Sys
-	prop        string
-	nRemote     int
-	nIDs        int
-	metaReq     uint32
-	outstanding map[*downH]int // chunks delivered to the client but not yet read
-	outMeta     map[*downH]int
+	y                                  *Sys
+	prop                               string
+	nRemote                            int
+	nIDs                               int
+	metaReq                            uint32
+	outstanding                        map[*downH]int // chunks delivered to the client but not yet read
+	outMeta                            map[*downH]int
+	readIdx, readCnt, metaIdx, metaCnt map[*downH]int
+	bursted                            map[*downH]bool
 }
 
 func runDownFamily(s *Sim, prop string) {
@@ -37,7 +39,7 @@ func runDownFamily(s *Sim, prop string) {
 		y.Enc = iscp.EncodingNameJSON
 	}
 	y.PingInterval, y.PingTimeout = time.Hour, time.Hour
-	dc := &downCtx{y: y, prop: prop, outstanding: map[*downH]int{}, outMeta: map[*downH]int{}}
+	dc := &downCtx{y: y, prop: prop, outstanding: map[*downH]int{}, outMeta: map[*downH]int{}, readIdx: map[*downH]int{}, readCnt: map[*downH]int{}, metaIdx: map[*downH]int{}, metaCnt: map[*downH]int{}, bursted: map[*downH]bool{}}
 	nDown := Pick(t, "ndown", 1, 1, 2, 3)
 	dc.nRemote = Pick(t, "nremote", 2, 1, 3, 6)
 	dc.nIDs = Pick(t, "nids", 3, 1, 5, 10)
@@ -48,6 +50,19 @@ func runDownFamily(s *Sim, prop string) {
 	s.yieldDensity = Pick(t, "yield", 0, 0, 20, 200)
 	closeEarly := prop == "C04" && t.Bool("close-early", 1, 2)
 	badAlias := prop == "C03" && t.Bool("bad-alias", 1, 3)
+	// C04 variants: one transport failure in the middle (acks across resume), and a burst of reads
+	// right before Close (many results and announcements pending when Close is called)
+	cutsLeft := 0
+	if prop == "C04" && t.Bool("with-cut", 1, 3) {
+		cutsLeft = 1
+		y.PingInterval, y.PingTimeout = 2*time.Second, time.Second
+		s.Family = "downstream-resume"
+	}
+	hadCut := false
+	burstBeforeClose := 0
+	if prop == "C04" {
+		burstBeforeClose = Pick(t, "burst-before-close", 0, 5, 70, 150, 300)
+	}
 
 	// tasks: 0 control, per downstream a chunk reader and a metadata reader
 	s.NewTasks(1 + 2*nDown)
@@ -87,8 +102,36 @@ func runDownFamily(s *Sim, prop string) {
 			if closed[h] {
 				continue
 			}
-			if h.B.link != nil && h.B.link.Alive() && dc.outstanding[h]+h.B.link.PendingB2C() < 1000 {
+			room := 0
+			if h.B.link != nil && h.B.link.Alive() {
+				// the consumer "keeps up" as long as fewer than 1024 items wait for it (documented buffering)
+				room = 1000 - dc.unread(h) - h.B.link.PendingB2C()
+				if m := 1000 - dc.unreadMeta(h) - h.B.link.PendingB2C(); m < room {
+					room = m
+				}
+			}
+			if room > 0 {
 				acts = append(acts, Action{Name: fmt.Sprintf("emit d%d", i), W: 10, Do: func() { dc.emit(h, false) }})
+				if room > 20 && !dc.bursted[h] {
+					acts = append(acts, Action{Name: fmt.Sprintf("burst d%d", i), W: 1, Do: func() {
+						dc.bursted[h] = true
+						// a burst that arrives while nobody reads: up to the documented buffering
+						k := Pick(t, "burst-n", 130, 40, 500, 990)
+						if k > room {
+							k = room
+						}
+						meta := t.Bool("burst-meta", 1, 3)
+						for j := 0; j < k; j++ {
+							if meta {
+								dc.emitMeta(h)
+							} else {
+								dc.emit(h, false)
+							}
+						}
+						h.B.link.DeliverAll()
+						s.StatN("env.burst-items", k)
+					}})
+				}
 				if badAlias {
 					acts = append(acts, Action{Name: fmt.Sprintf("emit-bad d%d", i), W: 1, Do: func() { dc.emit(h, true) }})
 				}
@@ -121,9 +164,30 @@ func runDownFamily(s *Sim, prop string) {
 		}
 		acts = append(acts, Action{Name: "pump", W: 4, Do: func() { y.Pump() }})
 		acts = append(acts, Action{Name: "advance", W: 4, Do: func() {
-			s.Advance(Pick(t, "adv", time.Millisecond, 10*time.Millisecond, 100*time.Millisecond, time.Second, 11*time.Second))
+			y.Advance(Pick(t, "adv", time.Millisecond, 10*time.Millisecond, 100*time.Millisecond, time.Second, 11*time.Second))
 		}})
+		if cutsLeft > 0 && step > maxSteps/4 {
+			acts = append(acts, Action{Name: "cut", W: 1, Do: func() {
+				cutsLeft--
+				hadCut = true
+				for _, l := range y.aliveLinks() {
+					if t.Bool("cut-ingest", 1, 2) {
+						l.IngestAll()
+					}
+					l.Kill(errClosed, errClosed)
+				}
+				s.Stat("fault.cut")
+				s.Logf("fault: cut")
+			}})
+		}
 		s.Step(acts)
+	}
+	if hadCut {
+		// let the connection come back and the streams resume
+		for i := 0; i < 30; i++ {
+			y.Pump()
+			y.Advance(time.Second)
+		}
 	}
 
 	// settle: deliver everything, then read until every delivered chunk has been consumed
@@ -165,8 +229,28 @@ func runDownFamily(s *Sim, prop string) {
 	y.Pump()
 	// let the ack flush interval pass on a healthy link (C04: acks of everything read)
 	for k := 0; k < 12; k++ {
-		s.Advance(time.Second)
+		y.Advance(time.Second)
 		y.Pump()
+	}
+	// optionally: a burst of chunks from many upstreams / data ids, all read at once, and Close
+	// immediately afterwards (no clock advance): everything is still pending when Close is called
+	if burstBeforeClose > 0 {
+		for i, h := range y.Downs {
+			rt := 1 + 2*i
+			if closed[h] || h.B.link == nil || !h.B.link.Alive() || !s.Idle(rt) {
+				continue
+			}
+			for k := 0; k < burstBeforeClose; k++ {
+				dc.emit(h, false)
+			}
+			y.flushLinks()
+			for k := 0; k < burstBeforeClose+5 && dc.unread(h) > 0 && s.Idle(rt); k++ {
+				s.Start(rt, y.readOp(h))
+				s.Wait()
+				s.Harvest()
+			}
+			s.StatN("c04.results-pending-at-close", burstBeforeClose)
+		}
 	}
 	// pending readers block for ever on an idle stream: end them before closing
 	for _, tk := range s.tasks[1:] {
@@ -199,7 +283,7 @@ func runDownFamily(s *Sim, prop string) {
 	if prop == "C03" {
 		oracleC03(s, y)
 	} else {
-		oracleC04(s, y, closed)
+		oracleC04(s, y, closed, hadCut)
 	}
 	var sample []map[string]any
 	for _, h := range y.Downs {
@@ -219,23 +303,28 @@ func (dc *downCtx) unread(h *downH) int {
 	} else {
 		delivered = len(h.B.Sent)
 	}
-	consumed := 0
-	for _, r := range h.Reads {
-		if r.harvested && (r.Err == nil || !isCtxErr(r.Err)) {
-			consumed++
+	// incremental count of the reads that consumed an item
+	i, n := dc.readIdx[h], dc.readCnt[h]
+	for i < len(h.Reads) && h.Reads[i].harvested {
+		if r := h.Reads[i]; r.Err == nil || !isCtxErr(r.Err) {
+			n++
 		}
+		i++
 	}
-	return delivered - consumed
+	dc.readIdx[h], dc.readCnt[h] = i, n
+	return delivered - n
 }
 
 func (dc *downCtx) unreadMeta(h *downH) int {
-	consumed := 0
-	for _, r := range h.MetaReads {
-		if r.harvested && r.Err == nil {
-			consumed++
+	i, n := dc.metaIdx[h], dc.metaCnt[h]
+	for i < len(h.MetaReads) && h.MetaReads[i].harvested {
+		if h.MetaReads[i].Err == nil {
+			n++
 		}
+		i++
 	}
-	return len(h.B.Metas) - consumed
+	dc.metaIdx[h], dc.metaCnt[h] = i, n
+	return len(h.B.Metas) - n
 }
 
 func isCtxErr(err error) bool {
@@ -425,7 +514,7 @@ func firstN(xs []string, n int) []string {
 }
 
 // oracleC04: acks cover every consumed chunk once; aliases are announced consistently.
-func oracleC04(s *Sim, y *Sys, closedEarlyMap map[*downH]bool) {
+func oracleC04(s *Sim, y *Sys, closedEarlyMap map[*downH]bool, hadCut bool) {
 	for _, h := range y.Downs {
 		if h.B == nil {
 			continue
@@ -434,7 +523,7 @@ func oracleC04(s *Sim, y *Sys, closedEarlyMap map[*downH]bool) {
 		// ack ids strictly increasing from 1
 		var last uint32
 		for i, a := range h.B.Acks {
-			if i == 0 && a.AckID != 1 {
+			if i == 0 && a.AckID != 1 && !hadCut { // (an ack written to a dying link is lost with it)
 				s.Violate("C04.ack-id", "first", "%s: first DownstreamChunkAck has ack id %d", d, a.AckID)
 			}
 			if i > 0 && a.AckID <= last {
@@ -477,7 +566,9 @@ func oracleC04(s *Sim, y *Sys, closedEarlyMap map[*downH]bool) {
 			}
 		}
 		// the link stayed up and every flush interval has passed (or Close returned): full coverage
-		if h.CloseOp != nil && h.CloseOp.harvested && h.CloseOp.Err == nil {
+		// (with a transport failure, results and announcements pending at the cut are legitimately lost:
+		// coverage is then only at-most-once, which the duplicate / unread checks above decide)
+		if !hadCut && h.CloseOp != nil && h.CloseOp.harvested && h.CloseOp.Err == nil {
 			missing := 0
 			var ex key
 			// (a read that overlaps Close may return a chunk after the final ack flush; the statement
@@ -540,7 +631,7 @@ func oracleC04(s *Sim, y *Sys, closedEarlyMap map[*downH]bool) {
 			}
 		}
 		// every upstream / data id that a returned chunk carried in full form has been announced
-		if h.CloseOp != nil && h.CloseOp.harvested && h.CloseOp.Err == nil {
+		if !hadCut && h.CloseOp != nil && h.CloseOp.harvested && h.CloseOp.Err == nil {
 			ri := 0
 			for _, r := range h.Reads {
 				if !(r.harvested && !isCtxErr(r.Err) && errClass(r.Err) != "stream-closed") {
